@@ -40,6 +40,7 @@ def X1(ctx):
 
 X2_ALLOWED = {
     (SCH, "threads"): {P + "::branch_thread", P + "::step", SCH + "::backtrack"},
+    (PT, "*"): {PT + "::explore", P + "::step", P + "::branch_thread"},
     (SCH, "preemptions"): {P + "::branch_thread"},
     (SCH, "initial_active"): {P + "::branch_thread"},
     (SCH, "prev"): {P + "::branch_thread"},
@@ -70,6 +71,18 @@ def X2(ctx):
             if w["kind"] == "borrow_mut" and not w["exact"]:
                 continue
             n += 1
+            if fk == SCH + "::backtrack" and (adt, field) == (SCH, "threads"):
+                # backtracking may change an alternative only through Thread::explore (Skip -> Pending, rule X1)
+                okw = False
+                if w["kind"] == "borrow_mut":
+                    cons = prog.borrow_consumer(w["fn"], w["bb"], w["idx"])
+                    ck = callee_path(cons[1]) if cons else ""
+                    okw = ck == PT + "::explore" or ck.endswith("IntoIterator::into_iter") or ck.endswith("::iter_mut")
+                if not okw:
+                    ctx.bad("X2", fk, "Schedule::backtrack changes the state of an alternative directly (not through Thread::explore): "
+                            "a Visited/Active alternative can be re-armed, so executions are repeated or exploration does not terminate",
+                            site_str(prog, w["fn"], w["bb"]), detail="direct-write")
+                    continue
             if fk in allowed:
                 ctx.ok("X2", "%s.%s<-%s" % (adt.split("::")[-1], field, fk.split("::")[-1]), w["kind"], [site_str(prog, w["fn"], w["bb"])])
             else:
@@ -94,35 +107,22 @@ def X2(ctx):
             ctx.ok("X2", "step:Spurious.spur=true", "", [site_str(prog, fk, w["bb"])])
         else:
             ctx.bad("X2", fk, "step() may only set Spurious.spur to true", site_str(prog, fk, w["bb"]), detail="spur-step")
-    # Schedule.threads in step: Active -> Visited (closure#0 finds is_active), first Pending -> Active (closure#1 finds is_pending; closure#2 assigns)
-    vis = [w for w in prog.writers().get((SCH, "threads"), []) if w["fn"] == fk]
-    c0 = prog.fn(fk + "::{closure#0}")
-    c1 = prog.fn(fk + "::{closure#1}")
-    c2 = prog.fn(fk + "::{closure#2}")
-    ok = c0 is not None and c1 is not None and c2 is not None
-    if ok:
-        k0 = [prog.callee_key(c) for (b, t, c) in prog.sites(prog.ident(c0.key))]
-        k1 = [prog.callee_key(c) for (b, t, c) in prog.sites(prog.ident(c1.key))]
-        ok = PT + "::is_active" in k0 and PT + "::is_pending" in k1
-        w2 = []
-        for b, blk in enumerate(c2.body.blocks):
-            for s in blk["stmts"]:
-                if s["k"] == "=" and s["lhs"]["p"] and s["rv"]["k"] in ("agg", "use"):
-                    w2.append(canon(c2.body.expr_of_rvalue(s["rv"])))
-        ok = ok and any("Active" in x for x in w2)
-        body = fn.body
-        visited = False
-        for b, blk in enumerate(body.blocks):
-            for s in blk["stmts"]:
-                if s["k"] == "=" and s["lhs"]["p"] and s["rv"]["k"] == "use":
-                    src = body.expr_of_rvalue(s["rv"])
-                    if "Visited" in canon(src) and "find(" in canon(body.expr_of_place(s["lhs"])):
-                        visited = True
-        ok = ok and visited
+    # Schedule.threads in step: Active -> Visited, then first Pending -> Active (in step itself, its closures, or a private helper)
+    reach = module_reach(prog, fk, "rt::path::")
+    calls = set()
+    for k in reach:
+        for (b_, t_, c_) in prog.sites(prog.ident(k)):
+            calls.add(prog.callee_key(c_))
+    vals = set()
+    for w in prog.writers().get((PT, "*"), []):
+        if w["fn"] in reach and w["fn"] != PT + "::explore":
+            vals.add(canon(rv_expr(prog, w)).split("::")[-1].rstrip("{}"))
+    ok = {"Visited", "Active"} <= vals and PT + "::is_active" in calls and PT + "::is_pending" in calls and "Pending" not in vals
     if ok:
         ctx.ok("X2", "step:Schedule", "Active -> Visited, then first Pending -> Active", [fn.loc()])
     else:
-        ctx.bad("X2", fk, "step() must retire the Active alternative (Visited) and activate the first Pending one", fn.loc(), detail="schedule-step")
+        ctx.bad("X2", P + "::step", "step() must retire the Active alternative (Visited) and activate the first Pending one "
+                "(values written: %s)" % sorted(vals), fn.loc(), detail="schedule-step")
 
 
 def X3(ctx):
@@ -173,7 +173,8 @@ def X3(ctx):
             expl = any(is_field(e, SPUR, "exploring") and pol is True for (e, pol, v, sb) in atoms)
         elif any(is_field(e, SCH, "exploring") for (e, pol, v, sb) in atoms):
             kind = "Schedule"
-            ok = any(e[0] == "call" and e[1].endswith("Option::<T>::is_some") and "is_pending" not in canon(e) and "find(" in canon(e) and pol is True
+            ok = any(e[0] == "call" and pol is True and
+                     ((e[1].endswith("Option::<T>::is_some") and "find(" in canon(e)) or (e[1].startswith("rt::path::") and e[1] in prog.fns))
                      for (e, pol, v, sb) in atoms)
             expl = any(is_field(e, SCH, "exploring") and pol is True for (e, pol, v, sb) in atoms)
         if kind is None:
@@ -386,8 +387,8 @@ def E1(ctx):
     # explore is applied to the requested thread when it is enabled, to all otherwise
     one = [b for b in ex if (body.local_name(2) or "thread_id") in canon(arg_expr(body, body.term(b), 0))]
     allb = [b for b in ex if b not in one]
-    g_one = one and all(unreachable_if(body, b, assume_calls({PT + "::is_enabled": False})) for b in one)
-    g_all = allb and all(unreachable_if(body, b, assume_calls({PT + "::is_enabled": True})) for b in allb)
+    g_one = one and all(unreachable_if(body, b, assume_scenario(prog, {PT + "::is_disabled": True})) for b in one)
+    g_all = allb and all(unreachable_if(body, b, assume_scenario(prog, {PT + "::is_disabled": False})) for b in allb)
     if g_one and g_all:
         ctx.ok("E1", fk + ":target", "arms the racing thread if enabled there, otherwise every thread", [site_str(prog, fk, one[0])])
     else:
